@@ -111,6 +111,12 @@ func init() {
 		sig := append([]value{uint8('R')}, keyIDBytes(d)...)
 		sig = append(sig, uint8(fr.i.concreteInt(args[2])))
 		sig = append(sig, args[3].([]value)...)
+		// a real PKCS#1 v1.5 signature is as long as the modulus: pad, so that
+		// modelled certificates and artifact files have real sizes
+		nMod := bigFromValue((*priv).(structure)[0].(structure)[0].(*value))
+		for len(sig) < (nMod.BitLen()+7)/8 {
+			sig = append(sig, uint8(0xa5))
+		}
 		fr.i.ps.signs++
 		return tuple{sig, iface{}}
 	}
@@ -301,6 +307,9 @@ func init() {
 		want := append([]value{uint8('R')}, keyIDBytes(id)...)
 		want = append(want, uint8(i.concreteInt(args[1])))
 		want = append(want, args[2].([]value)...)
+		for len(want) < (n.BitLen()+7)/8 {
+			want = append(want, uint8(0xa5))
+		}
 		if i.condBool(fromBoolTerm(i.bytesEq(want, args[3].([]value)))) {
 			return iface{}
 		}
